@@ -460,7 +460,9 @@ func hashWrites(f *ssa.Function) (obj *ssa.Call, writes []*ssa.Call, sum *ssa.Ca
 }
 
 // padded32: v is big.Bytes() left-padded to 32 bytes by the repo idiom
-//   b := X.Bytes(); if n := len(b); n < 32 { b = append(zeros[:32-n], b...) }
+//
+//	b := X.Bytes(); if n := len(b); n < 32 { b = append(zeros[:32-n], b...) }
+//
 // or FillBytes(make([]byte,32)). Returns the canonical big value.
 func padded32(be *bigEnv, v ssa.Value) (string, bool) {
 	if phi, ok := v.(*ssa.Phi); ok && len(phi.Edges) == 2 {
